@@ -153,6 +153,13 @@ def step (w : World) (toks : List String) : World × String :=
       | .error er => (w, errStr er)
       | .ok (s', msg, rest) => (setInWire (setEp w e s') e rest, "ok " ++ showBytes msg)
     | _ => (w, "bad-op")
+  | ["mrest", e] =>
+    match getEp w e with
+    | some s =>
+      match s.recvRestAux [] (inWire w e) with
+      | .error er => (w, errStr er)
+      | .ok (s', msg, rest) => (setInWire (setEp w e s') e rest, "ok " ++ showBytes msg)
+    | _ => (w, "bad-op")
   | ["recvf", e] =>
     match getEp w e, inWire w e with
     | some _, [] => (w, errStr .eof)
